@@ -40,7 +40,7 @@ REAL = ["ecdsa._rwlock.RWLock/_LightSwitch (unmodified algorithm)", "ecdsa.ellip
         "ecdsa.numbertheory", "ecdsa.keys / ecdh / plug-in ECC proxies (library-level programs on NIST256p)"]
 STUBS = ["threading.Lock -> SimLock (parks threads, raises on release of an unlocked lock)",
          "thread scheduling -> Sched (baton passing)", "clock -> virtual (sim.sleep)", "RNG -> per-thread seeded stream"]
-PROBES = ["runs-with-assertions-disabled", "lock-sweep-run", "preempt-inside-mul_add", "two-readers-inside", "writer-parked-while-readers-inside", "reader-parked-behind-writer",
+PROBES = ["runs-with-assertions-disabled", "two-lock-objects", "lock-sweep-run", "preempt-inside-mul_add", "two-readers-inside", "writer-parked-while-readers-inside", "reader-parked-behind-writer",
           "preempt-inside-precompute", "preempt-inside-scale", "table-built-in-run", "clock-jump",
           "three-threads", "sweep-run", "instr-mode"]
 THOROUGH_ONLY_PROBES = ["sweep-run", "lock-sweep-run"]
@@ -116,7 +116,7 @@ def _sched_spec(r, horizon_hint=None, max_pre=4):
 CURVES = {"toy": None, "secp112r1": "SECP112r1", "secp128r1": "SECP128r1", "nist256p": "NIST256p"}
 
 POINT_OPS = ["mulG", "mulG", "mulG", "muladd", "scaleP", "affP", "xyP", "eqPQ", "addPQ", "dblP", "pickleG", "mulP"]
-LIB_OPS = ["keygen", "signverify", "ecies", "ecdh", "verifyP", "verifyP"]
+LIB_OPS = ["keygen", "signverify", "ecies", "ecdh", "verifyP", "verifyP", "dhshared", "dhshared"]
 
 
 def _prog(r, curve, order):
@@ -134,6 +134,8 @@ def _prog(r, curve, order):
             prog.append([op, r.randrange(1 << 32)])
         elif op == "ecies":
             prog.append([op, r.randrange(4)])
+        elif op == "dhshared":
+            prog.append([op, r.randrange(3)])
         else:
             prog.append([op])
     return prog
@@ -169,7 +171,13 @@ def gen(st, tier):
             threads.append({"role": role, "rounds": rounds})
         w.shuffle(threads)
         pre, ch = _sched_spec(s)
-        return {"part": "lock", "threads": threads, "preempt": pre, "choices": ch}
+        case = {"part": "lock", "threads": threads, "preempt": pre, "choices": ch}
+        if w.random() < 0.2:
+            # a second lock object, always taken (as reader) while holding the first one: a consistent order
+            case["two_locks"] = True
+            for t in threads:
+                t["nest"] = w.random() < 0.6
+        return case
     if i < 96:
         curve = "toy" if i < 90 else w.choice(["secp112r1", "secp128r1"])
     else:
@@ -273,6 +281,7 @@ def _run_lock(case, out):
         s.wall_cap = 20.0
         ns = _fresh_rwlock_module(s)
         lock = ns["RWLock"]()
+        lock_b = ns["RWLock"]() if case.get("two_locks") else None
         names = ["read_switch.mutex", "write_switch.mutex", "no_readers", "no_writers", "readers_queue"]
         if len(s.locks) == 5:
             for lk, nm in zip(s.locks, names):
@@ -288,6 +297,10 @@ def _run_lock(case, out):
                         lock.writer_acquire()
                     t.phase = "inside"
                     s.yield_()
+                    if lock_b is not None and spec.get("nest"):
+                        lock_b.reader_acquire()
+                        s.yield_()
+                        lock_b.reader_release()
                     for _ in range(rd["y"]):
                         s.yield_()
                     if rd["sleep"]:
@@ -360,6 +373,8 @@ def _run_lock(case, out):
     out.fired["forced-switch"] += sum(1 for d in s.decisions if d[3] in ("block", "sleep"))
     out.nontrivial = any(d[3] in ("preempt", "block", "sleep") for d in s.decisions)
     out.log.append(("lock", tuple(s.lock_ops), s.aborted))
+    if case.get("two_locks"):
+        out.probes["two-lock-objects"] += 1
     out.sets["lock_states"] = states
     out.sets["lock_interleavings"] = {hash(tuple(s.lock_ops))}
     if case.get("lock_sweep") is not None:
@@ -467,6 +482,9 @@ def _make_world(case):
         w.sigP = w.skP.sign_deterministic(b"message for P")
         w.vkP = _keys.VerifyingKey.from_public_point(w.P, c, validate_point=False)
         w.vkP.pubkey.generator = w.G
+        # three peers for key agreement through ONE shared private-key object (w.recip)
+        w.peer_d = [r.randrange(2, n - 1) for _ in range(3)]
+        w.peers = [env.REAL_PRIV.create_from_der_fmt(refp256.sec1_private_der(d_)).public_key for d_ in w.peer_d]
         for key in (w.sk, w.recip.private_key):
             key.verifying_key.pubkey.generator = w.G
             key.privkey.public_key.generator = w.G
@@ -520,6 +538,8 @@ def _exec(w, op, tctx):
     if k == "verifyP":
         ok = bool(w.vkP.verify(w.sigP, b"message for P"))
         return (ok, int(w.P.x()), int(w.P.y()))
+    if k == "dhshared":
+        return w.recip.compute_dh_secret(w.peers[op[1]]).hex()
     if k == "ecies":
         env.install_rng(lambda n, site: tctx["entropy"](n))
         enc = env.bec2file.EccEncryptor(op[1], w.recip.public_key)
@@ -549,6 +569,8 @@ def _ref(w, op):
         return w.Paff
     if k == "verifyP":
         return (True, w.Paff[0], w.Paff[1])
+    if k == "dhshared":
+        return refp256.ecdh_x(w.recip_d, refp256.mul(w.peer_d[op[1]], refp256.G)).hex()
     if k == "eqPQ":
         return (True, False)
     if k == "addPQ":
